@@ -258,6 +258,9 @@ def shard(shard_i, nshards, payload):
                    "VAR s : STRING := 'gr%s'; END_VAR\na := 1;\nEND_FUNCTION_BLOCK\n" % (nonascii, i, i, i, i, nonascii))
             if i % 3 == 2:
                 lib = lib.replace("\n", "\r\n")
+            if i % 4 == 3:
+                # a big library: about 600 KiB of text (1.2 MiB as UTF-16)
+                lib = "(* " + ("generated documentation of the library, line after line. " * 10 + "\n") * 1000 + " *)\n" + lib
             main_text = "PROGRAM WsMain%d\nVAR l : WsLevel%d := ws_low%d; f : WsFb%d; x : INT; END_VAR\nf(a := 2);\nx := undeclared_ws;\nEND_PROGRAM\n" % (i, i, i, i)
             ref = None
             for name, enc in ENCODINGS:
